@@ -223,7 +223,7 @@ class MetadataBase(object):
 
     def _assert_not_blank(self, field):
         value = getattr(self, field)
-        if not value:
+        if not value or (isinstance(value, six.string_types) and not value.strip()):
             raise ValueError("%s: Field '%s' must not be blank" % (self.__class__.__name__, field))
 
     def _assert_matches_re(self, field, expected_patterns):
